@@ -365,6 +365,18 @@ def _helper_shape(h):
             for st in raw[1:-1]:
                 e = {'kind': 'BinaryOperator', 'opcode': '||', 'type': {'qualType': 'int'}, 'inner': [e, st['inner'][0]], '_line': st.get('_line')}
             return ('expr', e)
+        # ... ending in a truth value: if (c1) return 1; if (c2) return 0; return a != b;  ==  c1 || (!c2 && a != b)
+        truth = last.get('kind') == 'BinaryOperator' and last.get('opcode') in ('==', '!=', '<', '<=', '>', '>=', '&&', '||') \
+            or last.get('kind') == 'UnaryOperator' and last.get('opcode') == '!'
+        if truth and all(st.get('kind') == 'IfStmt' and len(st['inner']) == 2 and const_ret(st['inner'][1]) in ('0', '1') for st in raw[:-1]):
+            e = raw[-1]['inner'][0]
+            for st in reversed(raw[:-1]):
+                if const_ret(st['inner'][1]) == '1':
+                    e = {'kind': 'BinaryOperator', 'opcode': '||', 'type': {'qualType': 'int'}, 'inner': [st['inner'][0], {'kind': 'ParenExpr', 'type': {'qualType': 'int'}, 'inner': [e]}], '_line': st.get('_line')}
+                else:
+                    neg = {'kind': 'UnaryOperator', 'opcode': '!', 'type': {'qualType': 'int'}, 'inner': [{'kind': 'ParenExpr', 'type': {'qualType': 'int'}, 'inner': [st['inner'][0]]}], '_line': st.get('_line')}
+                    e = {'kind': 'BinaryOperator', 'opcode': '&&', 'type': {'qualType': 'int'}, 'inner': [neg, {'kind': 'ParenExpr', 'type': {'qualType': 'int'}, 'inner': [e]}], '_line': st.get('_line')}
+            return ('expr', e)
     rets = _returns(nb)
     if not rets:
         return ('void', items)
